@@ -144,7 +144,7 @@ func (a *A) ruleGapSplit() {
 			}
 			return U
 		}}
-	a.OnlyIf(construct, lk.Pos(), "an event further than the timeout after the key's open session does not join that session", spec,
+	a.OnlyIf(construct, lk.Pos(), "an event at or beyond the end of the key's open session does not join it (the session fires as soon as the watermark reaches its end: a row at exactly the end would join or not depending on whether the expiry ran first)", spec,
 		add.Blocks[0], nil, nil,
 		func(in ssa.Instruction, w *Walker) bool {
 			if !tset[in] {
@@ -156,7 +156,7 @@ func (a *A) ruleGapSplit() {
 			base := w.Term(st.Addr.(*ssa.FieldAddr).X)
 			return base.Kind == "index" && base.Base.Kind == "field" && base.Base.Field == smap
 		},
-		func(r map[string]int, _ map[string]bool) bool { return r["ts"] <= r["E"] })
+		func(r map[string]int, _ map[string]bool) bool { return r["ts"] < r["E"] })
 	_ = token.NoPos
 	_ = types.Typ
 }
